@@ -36,7 +36,7 @@ SZ = (1, 2, 3, 4, 5, 6, 8)
 def strategy_case(draw):
     fam = draw(st.sampled_from(["a", "a", "a", "b", "b", "b", "c", "d"]))
     dt = draw(st.sampled_from(gen.DTYPES_ALL))
-    source = draw(st.sampled_from(["torch", "numpy"]))
+    source = draw(st.sampled_from(["torch", "numpy", "numpy", "numpy_view"]))     # numpy_view: a reversed (negative stride) view
     case = {"family": fam, "dt": dt, "source": source, "seed": draw(gen.SEED),
             "scale_exp": draw(st.sampled_from([0, 0, 0, -6, -3, 3, 6, -20, 20, -170, 170]))}
     if fam == "c":
@@ -188,6 +188,9 @@ def build_input(case):
         src = src.reshape([shp[0] * shp[1]] + shp[2:])
     if case["source"] == "numpy":
         src = src.numpy()
+    elif case["source"] == "numpy_view":
+        # the same array handed over as a view with a negative stride along its first axis (np.flip / a[::-1])
+        src = np.ascontiguousarray(src.numpy()[::-1])[::-1] if src.dim() >= 1 and src.shape[0] > 0 else src.numpy()
     if case.get("target") == "ttm":
         shape = [(int(m), int(n)) for m, n in zip(M, N)]
     elif case.get("target") == "list":
